@@ -633,8 +633,17 @@ class Share:
                 # They might be asking for a segment number that is beyond
                 # what we guess the file contains, but _desire_block_hashes
                 # and _desire_data will tolerate that.
-                self._desire_block_hashes(desire, o, segnum)
-                self._desire_data(desire, o, r, segnum, segsize)
+                if self._node.have_UEB:
+                    segment_desire = desire
+                else:
+                    # Until the UEB arrives, the segment size and the shape
+                    # of the hash trees are only guesses, so the positions
+                    # computed from them are speculative too: they may lie
+                    # past the end of the share. Merely want them, so that a
+                    # wrong guess cannot make us abandon a good share.
+                    segment_desire = (want_it, want_it, gotta_gotta_have_it)
+                self._desire_block_hashes(segment_desire, o, segnum)
+                self._desire_data(segment_desire, o, r, segnum, segsize)
 
         log.msg("end _desire: want_it=%s need_it=%s gotta=%s"
                 % (want_it.dump(), need_it.dump(), gotta_gotta_have_it.dump()),
